@@ -24,7 +24,11 @@ import vlib
 LEVEL = "model_checking"
 
 ALL_SORTS = '{"unspecified", "unsorted", "blobref", "created", "createdAsc", "lastmod", "lastmodAsc"}'
-DEVS = ["OrAppendsTypes", "SortedSourceDropsSome", "RecursiveWholeDir", "DeleteDateIsModtime", "ContentClaimTimeIgnored"]
+# attribution priority when several single deviations explain a line
+DEVS = ["SortedSourceDropsSome", "OrAppendsTypes", "DeleteDateIsModtime", "RecursiveWholeDir", "ContentClaimTimeIgnored",
+        "DirChildrenCappedByLimit"]
+# many small TLC processes run side by side: keep each JVM small
+os.environ.setdefault("JAVA_TOOL_OPTIONS", "-Xmx3g -XX:ParallelGCThreads=2 -XX:CICompilerCount=2")
 
 
 def mkworld(ctx, drv, spec, name):
@@ -63,7 +67,8 @@ def effect(r):
 
 def signature(r):
     modec = "classic" if r["mode"] == "classic" else "corpus"
-    expl = sorted(["+".join(sorted(d)) for d in r["explained"]])
+    expl = sorted(["+".join(sorted(d, key=DEVS.index)) for d in r["explained"]],
+                  key=lambda x: [DEVS.index(p) for p in x.split("+")])
     if expl:
         # attributed to a mechanism-level deviation of Search.tla: the transcription of the code with that
         # deviation switched on produces exactly the logged answer
@@ -210,7 +215,7 @@ def run(ctx, replay):
     jobs = []
 
     # ---- S: every tree of the bounded grammar x sorts, per world, split over processes
-    s_sizes = {"ws": (14, 4), "wp": (8, 4), "wf": (9, 3)} if quick else {"ws": (14, 4), "wp": (18, 12), "wf": (20, 12)}
+    s_sizes = {"ws": (9, 3), "wp": (6, 2), "wf": (7, 2)} if quick else {"ws": (14, 6), "wp": (14, 10), "wf": (14, 10)}
     for w, (msize, parts) in s_sizes.items():
         for p in range(parts):
             jobs.append(("S", lambda w=w, msize=msize, parts=parts, p=p: ctx.tlc_check(
@@ -218,7 +223,8 @@ def run(ctx, replay):
     # sensitivity: each believed deviation must be refuted on the model
     sens = [("OrAppendsTypes", "ws", "SourceCoversMatches", 8), ("SortedSourceDropsSome", "ws", "SourceCoversMatches", 8),
             ("DeleteDateIsModtime", "ws", "MatcherAgrees", 14), ("ContentClaimTimeIgnored", "wf", "MatcherAgrees", 20),
-            ("RecursiveWholeDir", "wf", "MatcherAgrees", 20)]
+            ("RecursiveWholeDir", "wf", "MatcherAgrees", 20),
+            ('DirChildrenCappedByLimit", "cap2', "wf", "MatcherAgrees", 20)]
     for dev, w, inv, msize in sens:
         jobs.append(("S", lambda dev=dev, w=w, inv=inv, msize=msize: ctx.tlc_check(
             "Search", "Search.cfg", overrides=wconst(w, MenuSize=msize, Deviations='{"%s"}' % dev), workers=1,
@@ -276,7 +282,7 @@ def run(ctx, replay):
     ctx.cov["candidate_sources_seen"] = stats["sources"]
     ctx.cov["replies_seen"] = stats["res"]
     ctx.cov["rule"] = ("S: every constraint tree of depth <= 3 over the world's atom menu x 6 sorts on 3 fixed worlds (planner "
-                       "source covers the matches; Order/Limit accepted by the validation relation), 5 deviations refuted; "
+                       "source covers the matches; Order/Limit accepted by the validation relation), 6 deviations refuted; "
                        "G: all trees of depth <= 2 x 7 sorts x limits on the small world + simulated trees of depth <= 5 on 3 "
                        "worlds, each run on the real handler in 3 index modes; T: seeded random compound trees on 3 fixed + %d "
                        "random worlds; every logged query re-evaluated by TLC (Trace_Search). distinct = mode x sort x "
